@@ -38,13 +38,39 @@ theorem callsOf_validators (attrs : List Attr) (c : Call) : callsOf (validatorEv
 theorem callsOf_post (b : Bool) : callsOf (if b then [ev "post" "" 0 []] else []) = [] := by
   cases b <;> simp [callsOf, isCall, ev]
 
+/-- the members of a converter chain, arguments blanked: one `conv` invocation per member, `idx` = position -/
+theorem callsOf_pipeEvents (n : String) (ms : List Conv) : ∀ (i : Nat) (v : Val),
+    callsOf (pipeEvents n i ms v) =
+      (List.range' i ms.length).map (fun j => { id := { kind := "conv", field := n, idx := j }, args := [] }) := by
+  induction ms with
+  | nil => intro i v; rfl
+  | cons c cs ih =>
+    intro i v
+    have := ih (i + 1) (convValAt n i c v)
+    simp only [pipeEvents, List.length_cons, List.range'_succ, List.map_cons]
+    rw [← this]
+    simp [callsOf, isCall, blankArgs]
+
+/-- the converter callbacks of a field, arguments blanked, are `convCalls`: once for a single converter, every
+    member of a chain once, in order -/
+theorem callsOf_convEventsOf (a : Attr) (v : Val) : callsOf (convEventsOf a v) = convCalls a := by
+  unfold convEventsOf convCalls convCount
+  cases a.conv with
+  | none => rfl
+  | some c =>
+    cases a.pipe with
+    | none => simp [callsOf, isCall, blankArgs]
+    | some ms => simp only [callsOf_pipeEvents, List.range_eq_range']
+
 /-- one field's part: factory iff the value comes from the factory, then converter iff there is one -/
 theorem callsOf_attrEvents (attrs : List Attr) (c : Call) (a : Attr) :
     callsOf (attrEvents attrs c a) =
-      (if fromFactory attrs c a then [callEv "factory" a.name] else []) ++
-      (if a.conv.isSome then [callEv "conv" a.name] else []) := by
-  unfold attrEvents fromFactory valueSupplied hasFactory
-  cases hi : a.init <;> cases hd : a.dflt <;> cases hc : a.conv <;>
+      (if fromFactory attrs c a then [callEv "factory" a.name] else []) ++ convCalls a := by
+  unfold attrEvents
+  rw [callsOf_append, callsOf_convEventsOf]
+  congr 1
+  unfold fromFactory valueSupplied hasFactory
+  cases hi : a.init <;> cases hd : a.dflt <;>
     cases hp : passed (params attrs) c a.alias <;>
     simp [callsOf, isCall, blankArgs, callEv, ev]
 
@@ -123,15 +149,13 @@ theorem callCount_flatMap_unique (k : String) (f : Attr → List Event) (l : Lis
 /-- the statements of one field, as `expectedCalls` lists them, for every field of the class -/
 def fieldCalls (attrs : List Attr) (c : Call) (a : Attr) : List Event :=
   if participates a then
-    (if fromFactory attrs c a then [callEv "factory" a.name] else []) ++
-    (if a.conv.isSome then [callEv "conv" a.name] else [])
+    (if fromFactory attrs c a then [callEv "factory" a.name] else []) ++ convCalls a
   else []
 
 theorem expectedCalls_eq (attrs : List Attr) (c : Call) :
     expectedCalls attrs c = attrs.flatMap (fieldCalls attrs c) := by
   unfold expectedCalls
-  generalize hg : (fun a => (if fromFactory attrs c a then [callEv "factory" a.name] else []) ++
-    (if a.conv.isSome then [callEv "conv" a.name] else [])) = g
+  generalize hg : (fun a => (if fromFactory attrs c a then [callEv "factory" a.name] else []) ++ convCalls a) = g
   have hf : fieldCalls attrs c = fun a => if participates a then g a else [] := by
     subst hg; rfl
   rw [hf]
@@ -141,26 +165,45 @@ theorem expectedCalls_eq (attrs : List Attr) (c : Call) :
   | cons x l ih =>
     cases hp : participates x <;> simp [hp, ih]
 
+theorem callCount_conv_convCalls (n : String) (b : Attr) :
+    callCount "conv" n (convCalls b) = if b.name = n then convCount b else 0 := by
+  unfold convCalls callCount
+  by_cases hn : b.name = n
+  · simp [hn, List.countP_map]
+    rw [List.countP_eq_length.2 (by intro x _; simp)]
+    simp
+  · simp [hn, List.countP_map]
+
+theorem callCount_factory_convCalls (n : String) (b : Attr) : callCount "factory" n (convCalls b) = 0 := by
+  unfold convCalls callCount
+  simp [List.countP_map]
+
 theorem callCount_conv_field (attrs : List Attr) (c : Call) (n : String) (b : Attr) :
     callCount "conv" n (fieldCalls attrs c b) =
-      if b.name = n ∧ participates b = true ∧ b.conv.isSome = true then 1 else 0 := by
+      if b.name = n ∧ participates b = true then convCount b else 0 := by
   unfold fieldCalls
-  cases participates b <;> cases fromFactory attrs c b <;> cases b.conv.isSome <;>
-    by_cases hn : b.name = n <;> simp [callCount, callEv, hn]
+  by_cases hp : participates b = true
+  · rw [if_pos hp, callCount_append, callCount_conv_convCalls]
+    have : callCount "conv" n (if fromFactory attrs c b then [callEv "factory" b.name] else []) = 0 := by
+      split <;> simp [callCount, callEv]
+    rw [this]; simp [hp]
+  · rw [if_neg hp]; simp [hp, callCount]
 
 theorem callCount_factory_field (attrs : List Attr) (c : Call) (n : String) (b : Attr) :
     callCount "factory" n (fieldCalls attrs c b) =
       if b.name = n ∧ participates b = true ∧ fromFactory attrs c b = true then 1 else 0 := by
   unfold fieldCalls
-  cases participates b <;> cases fromFactory attrs c b <;> cases b.conv.isSome <;>
-    by_cases hn : b.name = n <;> simp [callCount, callEv, hn]
+  by_cases hp : participates b = true
+  · rw [if_pos hp, callCount_append, callCount_factory_convCalls]
+    cases fromFactory attrs c b <;> by_cases hn : b.name = n <;> simp [callCount, callEv, hn, hp]
+  · rw [if_neg hp]; simp [hp, callCount]
 
 /-- **exactly once, and only then** (declarative side): among the invocations the statement allows, the
     converter of a field of the class occurs once if the field participates and has a converter, its factory
     once if the field participates and its value comes from the factory; otherwise not at all. -/
 theorem callCount_expectedCalls (attrs : List Attr) (c : Call) (hnd : (attrs.map (·.name)).Nodup)
     (a : Attr) (ha : a ∈ attrs) :
-    callCount "conv" a.name (expectedCalls attrs c) = (if participates a && a.conv.isSome then 1 else 0) ∧
+    callCount "conv" a.name (expectedCalls attrs c) = (if participates a then convCount a else 0) ∧
     callCount "factory" a.name (expectedCalls attrs c) =
       (if participates a && fromFactory attrs c a then 1 else 0) := by
   rw [expectedCalls_eq]
@@ -183,8 +226,8 @@ theorem expectedCalls_fields (attrs : List Attr) (c : Call) (e : Event) (he : e 
   · split at h
     · rw [List.mem_singleton.1 h]; rfl
     · cases h
-  · split at h
-    · rw [List.mem_singleton.1 h]; rfl
-    · cases h
+  · unfold convCalls at h
+    obtain ⟨i, _, hi⟩ := List.mem_map.1 h
+    rw [← hi]
 
 end Attrs.C01
